@@ -7,6 +7,9 @@ import OvniModel.Lemmas.BreakdownSys
 import OvniModel.Lemmas.CoreBayOrder
 import OvniModel.Lemmas.CoreBayRaw
 import OvniModel.Lemmas.TaskHook
+import OvniModel.Lemmas.CoreBayTable
+import OvniModel.Lemmas.TaskHookOrder
+import OvniModel.Lemmas.TaskCoupleDirty
 
 /-!
 # C20 — breakdown view: the rows hold the sorted per-CPU breakdown values
@@ -508,6 +511,383 @@ theorem dirty_level_ordered_emu (k : Consts) (c : Cpu) (sets : List (Src × Valu
     Quiescent k c' ∧ c'.seen = c'.tri ∧ c'.tri = triSpec k c'.tr c'.idle :=
   dirty_level_ordered_partial k c sets hq (hd ▸ ho)
 
+/-! ### The table events (`VPp VPr VPa` write the idle channel), and the positions of
+`ss` / `tt` after a task event -/
+
+/-- A step that writes neither the CPU's `th_running` nor the channels `itt`, `iss`
+    of model `k` of any thread (in particular: a step that writes only the idle
+    channel) leaves the CPU tracks of `itt` and `iss` off the dirty list: the CPU's
+    breakdown sees at most `[idle]`, and `orderOk` holds. -/
+theorem dirty_level_ordered_idle {P : Ovni.Emu.Src → Prop} {e e' : Ovni.Emu.Emu} {b0 b : Ovni.Emu.Bay}
+    (hc : e.shape.connect = .ok b0) (hs : Ovni.Emu.Shaped e) (hi : Ovni.Emu.Inv b0 e b)
+    (hsim : Ovni.Emu.SimP P e e')
+    {c k itt iss iidle : Nat} {m : Ovni.Emu.ModelSpec} (hcl : c < e.cpus.length) (hk : e.specs[k]? = some m)
+    (h1 : itt < iidle) (h2 : iss < iidle) (h3 : iidle < m.nch) (hne : itt ≠ iss)
+    (hrun : ¬ P (.run c)) (htt : ∀ g, ¬ P (.raw g k itt)) (hss : ∀ g, ¬ P (.raw g k iss)) :
+    ∃ b1 bP bF em, Ovni.Emu.Bay.Writes (e.shape.okP P) b b1 ∧ Ovni.Emu.Mirrors e' b1 ∧
+      b1.dirtyPhase b1.chans.length 0 = .ok bP ∧ b1.propagate = .ok (bF, em) ∧ Ovni.Emu.Inv b0 e'.flushAll bF ∧
+      e.shape.cpuOut c k itt ∉ bP.dirty ∧ e.shape.cpuOut c k iss ∉ bP.dirty ∧
+      orderOk (dedup (srcOrder (e.shape.cpuOut c k itt) (e.shape.cpuOut c k iss) (e.shape.cpuOut c k iidle)
+        bP.dirty)) = true := by
+  obtain ⟨b1, bP, bF, em, hw, hm, hph, hp, hinv, wfP, hmx, hdsub, hreach⟩ := Ovni.Emu.Inv.any_event hc hs hi hsim
+  have hb := Ovni.Emu.Shape.connect_built hc
+  have hk' : e.shape.specs[k]? = some m := hk
+  have hcl' : c < e.shape.nC := hcl
+  have hj : ∀ i, i < m.nch → Ovni.Emu.Job.cpu c k i ∈ e.shape.jobs :=
+    fun i hi => (e.shape.mem_jobs_cpu c k i).mpr ⟨hcl', m, hk', hi⟩
+  have hti : e.shape.cpuOut c k itt ≠ e.shape.cpuOut c k iidle :=
+    Nat.ne_of_lt (e.shape.cpuOut_lt (hj itt (by omega)) (hj iidle h3) h1)
+  have hsi : e.shape.cpuOut c k iss ≠ e.shape.cpuOut c k iidle :=
+    Nat.ne_of_lt (e.shape.cpuOut_lt (hj iss (by omega)) (hj iidle h3) h2)
+  have hts : e.shape.cpuOut c k itt ≠ e.shape.cpuOut c k iss := by
+    rcases Nat.lt_or_gt_of_ne hne with h | h
+    · exact Nat.ne_of_lt (e.shape.cpuOut_lt (hj itt (by omega)) (hj iss (by omega)) h)
+    · exact Nat.ne_of_gt (e.shape.cpuOut_lt (hj iss (by omega)) (hj itt (by omega)) h)
+  have hnt : e.shape.cpuOut c k itt ∉ bP.dirty := fun hx =>
+    hb.cpuOut_not_reached hmx hdsub hcl' hk' (by omega) hrun htt (hreach _ hx)
+  have hns : e.shape.cpuOut c k iss ∉ bP.dirty := fun hx =>
+    hb.cpuOut_not_reached hmx hdsub hcl' hk' (by omega) hrun hss (hreach _ hx)
+  refine ⟨b1, bP, bF, em, hw, hm, hph, hp, hinv, hnt, hns, ?_⟩
+  rw [dedup_of_nodup _ (srcOrder_nodup _ _ _ hts hti hsi _ wfP.dirtyNodup)]
+  exact orderOk_of_positions _ _ _ hts hti hsi _ wfP.dirtyNodup
+    (fun hx _ => absurd hx hnt) (fun hx _ => absurd hx hns)
+
+/-- A table event writes at most one channel (`simple`: one `chan_push` /
+    `chan_pop` / `chan_set` on `entry[0]`). -/
+theorem tableChans_single (m : Ovni.Emu.ModelSpec) (c v : Nat) :
+    Ovni.Emu.tableChans m c v = [] ∨ ∃ ch, Ovni.Emu.tableChans m c v = [ch] := by
+  unfold Ovni.Emu.tableChans
+  split
+  · split
+    · exact Or.inr ⟨_, rfl⟩
+    · exact Or.inl rfl
+  · exact Or.inl rfl
+
+/-- **dirty_level_ordered for every table event, the idle events included.**
+    What `orderOk` asks of the idle channel — no `idle` entry of the CPU ahead of
+    an `ss` / `tt` entry on the dirty list — is a constraint on events that put
+    BOTH kinds on the list.  A table event (`simple` of nOS-V / Nanos6, in
+    particular `VPp VPr VPa` / `6Pp 6Pr 6Pa`, `SimP.tableEventP`) writes one
+    channel `ch` of its thread: if `ch` is the idle channel, the `ss` and `tt`
+    tracks stay off the list (`dirty_level_ordered_idle`); otherwise the idle
+    track does (`dirty_level_ordered_raw`).  Either way `orderOk` holds, for every
+    CPU, with no hypothesis on the order. -/
+theorem dirty_level_ordered_table {e e' : Ovni.Emu.Emu} {b0 b : Ovni.Emu.Bay} {ti ec ev : Nat}
+    {ms : Ovni.Emu.ModelSpec} (hc : e.shape.connect = .ok b0) (hs : Ovni.Emu.Shaped e) (hi : Ovni.Emu.Inv b0 e b)
+    (h : Ovni.Emu.tableEvent e ti ms ec ev = .ok e')
+    {c k itt iss iidle : Nat} {m : Ovni.Emu.ModelSpec} (hcl : c < e.cpus.length) (hk : e.specs[k]? = some m)
+    (h1 : itt < iidle) (h2 : iss < iidle) (h3 : iidle < m.nch) (hne : itt ≠ iss) :
+    ∃ b1 bP bF em, Ovni.Emu.Bay.Writes (· < e.shape.L) b b1 ∧ Ovni.Emu.Mirrors e' b1 ∧
+      b1.dirtyPhase b1.chans.length 0 = .ok bP ∧ b1.propagate = .ok (bF, em) ∧ Ovni.Emu.Inv b0 e'.flushAll bF ∧
+      (iidle ∈ Ovni.Emu.tableChans ms ec ev →
+        e.shape.cpuOut c k itt ∉ bP.dirty ∧ e.shape.cpuOut c k iss ∉ bP.dirty) ∧
+      (iidle ∉ Ovni.Emu.tableChans ms ec ev → e.shape.cpuOut c k iidle ∉ bP.dirty) ∧
+      orderOk (dedup (srcOrder (e.shape.cpuOut c k itt) (e.shape.cpuOut c k iss) (e.shape.cpuOut c k iidle)
+        bP.dirty)) = true := by
+  have hsim := Ovni.Emu.SimP.tableEventP h
+  have hrun : ¬ Ovni.Emu.rawOf ti (Ovni.Emu.tableChans ms ec ev) (.run c) := by
+    rintro ⟨_, _, hx, _⟩; cases hx
+  by_cases hid : iidle ∈ Ovni.Emu.tableChans ms ec ev
+  · have hone : Ovni.Emu.tableChans ms ec ev = [iidle] := by
+      rcases tableChans_single ms ec ev with h0 | ⟨ch, h0⟩
+      · rw [h0] at hid; cases hid
+      · rw [h0] at hid ⊢; simp only [List.mem_singleton] at hid; rw [hid]
+    obtain ⟨b1, bP, bF, em, hw, hm, hph, hp, hinv, hnt, hns, ho⟩ :=
+      dirty_level_ordered_idle hc hs hi hsim hcl hk h1 h2 h3 hne hrun
+        (by rintro g ⟨_, _, hx, hmem⟩; cases hx; rw [hone] at hmem; simp only [List.mem_singleton] at hmem; omega)
+        (by rintro g ⟨_, _, hx, hmem⟩; cases hx; rw [hone] at hmem; simp only [List.mem_singleton] at hmem; omega)
+    exact ⟨b1, bP, bF, em, hw.mono (fun _ h => Ovni.Emu.Shape.okP_lt h), hm, hph, hp, hinv,
+      fun _ => ⟨hnt, hns⟩, fun hn => absurd hid hn, ho⟩
+  · obtain ⟨b1, bP, bF, em, hw, hm, hph, hp, hinv, hnot, ho⟩ :=
+      dirty_level_ordered_raw hc hs hi hsim hcl hk h1 h2 h3 hne hrun
+        (by rintro g ⟨_, _, hx, hmem⟩; cases hx; exact hid hmem)
+    exact ⟨b1, bP, bF, em, hw.mono (fun _ h => Ovni.Emu.Shape.okP_lt h), hm, hph, hp, hinv,
+      fun hy => absurd hy hid, fun _ => hnot, ho⟩
+
+/-- The rows of the generated tables on the idle channel: nOS-V `VPa VPp VPr`
+    (`CH_IDLE = 6`), Nanos6 `6Pa 6Pp 6Pr` (`CH_IDLE = 5`), all `chan_set`; they
+    write exactly the idle channel. -/
+theorem idle_rows :
+    (Ovni.Emu.specNosv.table.filter (fun r => r.2.2.1 == 6)).map (fun r => (r.1, r.2.1, r.2.2.2.1)) =
+      [(80, 97, 3), (80, 112, 3), (80, 114, 3)] ∧
+    (Ovni.Emu.specNanos6.table.filter (fun r => r.2.2.1 == 5)).map (fun r => (r.1, r.2.1, r.2.2.2.1)) =
+      [(80, 97, 3), (80, 112, 3), (80, 114, 3)] ∧
+    (∀ v ∈ [97, 112, 114], Ovni.Emu.tableChans Ovni.Emu.specNosv 80 v = [6] ∧
+      Ovni.Emu.tableChans Ovni.Emu.specNanos6 80 v = [5]) := by decide
+
+/-! #### positions of `ss` / `tt` after a task event -/
+
+theorem srcOrder_nil_of_absent (tt ss idle : Nat) (d : List Nat) (h1 : tt ∉ d) (h2 : ss ∉ d) (h3 : idle ∉ d) :
+    srcOrder tt ss idle d = [] := by
+  unfold srcOrder
+  rw [List.filterMap_eq_nil_iff]
+  intro a ha
+  have e1 : a ≠ tt := fun e => h1 (e ▸ ha)
+  have e2 : a ≠ ss := fun e => h2 (e ▸ ha)
+  have e3 : a ≠ idle := fun e => h3 (e ▸ ha)
+  simp [srcOf, e1, e2, e3]
+
+theorem srcOrder_cons_other {tt ss idle a : Nat} (d : List Nat) (h1 : a ≠ tt) (h2 : a ≠ ss) (h3 : a ≠ idle) :
+    srcOrder tt ss idle (a :: d) = srcOrder tt ss idle d := by
+  simp [srcOrder, srcOf, h1, h2, h3]
+
+/-- no `ss`, no `idle` on a duplicate-free list: the projection is `[]` or `[tt]` -/
+theorem srcOrder_sublist_tt (tt ss idle : Nat) : ∀ (d : List Nat), d.Nodup → ss ∉ d → idle ∉ d →
+    (srcOrder tt ss idle d).Sublist [Src.tt] := by
+  intro d
+  induction d with
+  | nil => intro _ _ _; exact List.nil_sublist _
+  | cons a d ih =>
+    intro hnd hs hi
+    rw [List.nodup_cons] at hnd
+    have has : a ≠ ss := fun e => hs (by simp [e])
+    have hai : a ≠ idle := fun e => hi (by simp [e])
+    have hs' : ss ∉ d := fun h => hs (by simp [h])
+    have hi' : idle ∉ d := fun h => hi (by simp [h])
+    by_cases hat : a = tt
+    · subst hat
+      have e : srcOrder a ss idle (a :: d) = Src.tt :: srcOrder a ss idle d := by simp [srcOrder, srcOf]
+      rw [e, srcOrder_nil_of_absent _ _ _ d hnd.1 hs' hi']
+      exact List.Sublist.refl _
+    · rw [srcOrder_cons_other d hat has hai]
+      exact ih hnd.2 hs' hi'
+
+/-- **From positions to the projected list.**  On a duplicate-free dirty list
+    without the `idle` track and with the `ss` track ahead of the `tt` track
+    (whenever both are present), what the CPU's breakdown sees is a sublist of
+    `[ss, tt]`: one of `[]`, `[ss]`, `[tt]`, `[ss, tt]`. -/
+theorem srcOrder_sublist_of_positions (tt ss idle : Nat) (hts : tt ≠ ss) : ∀ (d : List Nat), d.Nodup → idle ∉ d →
+    (ss ∈ d → tt ∈ d → d.idxOf ss < d.idxOf tt) → (srcOrder tt ss idle d).Sublist [Src.ss, Src.tt] := by
+  intro d
+  induction d with
+  | nil => intro _ _ _; exact List.nil_sublist _
+  | cons a d ih =>
+    intro hnd hi hord
+    rw [List.nodup_cons] at hnd
+    have hai : a ≠ idle := fun e => hi (by simp [e])
+    have hi' : idle ∉ d := fun h => hi (by simp [h])
+    by_cases hat : a = tt
+    · -- `tt` first: no `ss` may follow
+      subst hat
+      have hns : ss ∉ d := by
+        intro h
+        have := hord (by simp [h]) (by simp)
+        rw [idxOf_cons_ne hts, List.idxOf_cons] at this
+        simp at this
+      have e : srcOrder a ss idle (a :: d) = Src.tt :: srcOrder a ss idle d := by simp [srcOrder, srcOf]
+      rw [e, srcOrder_nil_of_absent _ _ _ d hnd.1 hns hi']
+      exact List.Sublist.cons _ (List.Sublist.refl _)
+    · by_cases has : a = ss
+      · subst has
+        have e : srcOrder tt a idle (a :: d) = Src.ss :: srcOrder tt a idle d := by
+          simp [srcOrder, srcOf, Ne.symm hts]
+        rw [e]
+        exact List.Sublist.cons_cons _ (srcOrder_sublist_tt tt a idle d hnd.2 hnd.1 hi')
+      · rw [srcOrder_cons_other d hat has hai]
+        refine ih hnd.2 hi' (fun hx hy => ?_)
+        have := hord (by simp [hx]) (by simp [hy])
+        rw [idxOf_cons_ne has, idxOf_cons_ne hat] at this
+        omega
+
+/-- **The dirty list after a task event: `ss` before `tt`, no `idle`.**  For
+    every task event accepted by the task hook (`VTx VTe VTp VTr`, `6Tx …`; the
+    creation events write nothing), every CPU, and channels `iss` = the model's
+    subsystem channel, `itt` one of the channels `update_task_channels` sets (the
+    task type), `iidle` not a task channel (nOS-V: 4, 2, 6; Nanos6: 2, 1, 5 —
+    `task_channel_groups`): after the dirty phase the idle track of the CPU is not
+    on the dirty list, the `ss` track precedes the `tt` track whenever both are
+    there — `update_task` calls `update_task_ss_channel` before
+    `update_task_channels`, and outputs enter the list in the order in which their
+    inputs are processed (`Bay.dirtyPhase_ordered`) — hence what the CPU's
+    breakdown sees is a sublist of `[ss, tt]`; and for an event other than
+    `x` / `e` (pause, resume) the `ss` track is absent: a sublist of `[tt]`. -/
+theorem task_event_dirty_positions {tm : Ovni.Task.Model} {P : Ovni.Task.ProcInfo} {ε : Ovni.Task.Emu}
+    {ev : Ovni.Task.Ev} {e e' : Ovni.Emu.Emu} {b0 b : Ovni.Emu.Bay} {ti a b' : Nat} {p : List Nat}
+    (hc : e.shape.connect = .ok b0) (hs : Ovni.Emu.Shaped e) (hi : Ovni.Emu.Inv b0 e b)
+    (h : Ovni.Emu.taskHook tm P ε ev e ti a b' p = .ok e')
+    {c k itt iidle : Nat} {m : Ovni.Emu.ModelSpec} (hcl : c < e.cpus.length) (hk : e.specs[k]? = some m)
+    (hss : (Ovni.Emu.taskIdx tm).ss < m.nch) (htt : itt < m.nch) (h3 : iidle < m.nch)
+    (hin : itt ∈ (Ovni.Emu.taskIdx tm).sets) (hssn : (Ovni.Emu.taskIdx tm).ss ∉ (Ovni.Emu.taskIdx tm).sets)
+    (hidle : iidle ∉ (Ovni.Emu.taskIdx tm).all) :
+    let iss := (Ovni.Emu.taskIdx tm).ss
+    ∃ b1 bP bF em, Ovni.Emu.Bay.Writes (e.shape.okP (Ovni.Emu.rawOf ti (Ovni.Emu.taskIdx tm).all)) b b1 ∧
+      Ovni.Emu.Mirrors e' b1 ∧
+      b1.dirtyPhase b1.chans.length 0 = .ok bP ∧ b1.propagate = .ok (bF, em) ∧ Ovni.Emu.Inv b0 e'.flushAll bF ∧
+      bP.WF ∧ e.shape.cpuOut c k iidle ∉ bP.dirty ∧
+      (e.shape.cpuOut c k iss ∈ bP.dirty → e.shape.cpuOut c k itt ∈ bP.dirty →
+        bP.dirty.idxOf (e.shape.cpuOut c k iss) < bP.dirty.idxOf (e.shape.cpuOut c k itt)) ∧
+      (srcOrder (e.shape.cpuOut c k itt) (e.shape.cpuOut c k iss) (e.shape.cpuOut c k iidle) bP.dirty).Sublist
+        [Src.ss, Src.tt] ∧
+      ((∀ th t bp, ev ≠ .task th .x t bp ∧ ev ≠ .task th .e t bp) →
+        e.shape.cpuOut c k iss ∉ bP.dirty ∧
+        (srcOrder (e.shape.cpuOut c k itt) (e.shape.cpuOut c k iss) (e.shape.cpuOut c k iidle) bP.dirty).Sublist
+          [Src.tt]) := by
+  intro iss
+  obtain ⟨e1, s1, s2, hsame⟩ := Ovni.Emu.taskHook_two_phase h
+  have hb := Ovni.Emu.Shape.connect_built hc
+  have hk' : e.shape.specs[k]? = some m := hk
+  have hcl' : c < e.shape.nC := hcl
+  have hne : iss ≠ itt := fun hq => hssn (by rw [← hq] at hin; exact hin)
+  have hj : ∀ i, i < m.nch → Ovni.Emu.Job.cpu c k i ∈ e.shape.jobs :=
+    fun i hi => (e.shape.mem_jobs_cpu c k i).mpr ⟨hcl', m, hk', hi⟩
+  have hts : e.shape.cpuOut c k itt ≠ e.shape.cpuOut c k iss := by
+    rcases Nat.lt_or_gt_of_ne hne with h | h
+    · exact Nat.ne_of_gt (e.shape.cpuOut_lt (hj iss hss) (hj itt htt) h)
+    · exact Nat.ne_of_lt (e.shape.cpuOut_lt (hj itt htt) (hj iss hss) h)
+  have hsets_all : ∀ i, i ∈ (Ovni.Emu.taskIdx tm).sets → i ∈ (Ovni.Emu.taskIdx tm).all := by
+    intro i hi
+    unfold Ovni.Emu.TaskChanIdx.sets at hi
+    unfold Ovni.Emu.TaskChanIdx.all
+    simp only [List.mem_append, List.mem_cons, List.not_mem_nil, or_false] at hi ⊢
+    rcases hi with ((h | h | h) | h) | h
+    · exact Or.inl (Or.inl (Or.inl h))
+    · exact Or.inl (Or.inl (Or.inr (Or.inl h)))
+    · exact Or.inl (Or.inl (Or.inr (Or.inr h)))
+    · exact Or.inl (Or.inr h)
+    · exact Or.inr (Or.inr h)
+  have hss_all : iss ∈ (Ovni.Emu.taskIdx tm).all := by
+    unfold Ovni.Emu.TaskChanIdx.all; simp [iss]
+  by_cases hpr : ∀ th t bp, ev ≠ .task th .x t bp ∧ ev ≠ .task th .e t bp
+  · -- pause / resume / creation: only the `chan_set`s
+    have he1 := hsame hpr
+    rw [he1] at s2
+    obtain ⟨b1, bP, bF, em, hw, hm, hph, hp, hinv, wfP, hmx, hdsub, hreach⟩ := Ovni.Emu.Inv.any_event hc hs hi s2
+    have hnot : e.shape.cpuOut c k iidle ∉ bP.dirty := fun hx =>
+      hb.cpuOut_not_reached hmx hdsub hcl' hk' h3 (by rintro ⟨_, _, hx, _⟩; cases hx)
+        (by rintro g ⟨_, _, hx, hmem⟩; cases hx; exact hidle (hsets_all _ hmem)) (hreach _ hx)
+    have hnoss : e.shape.cpuOut c k iss ∉ bP.dirty := fun hx =>
+      hb.cpuOut_not_reached hmx hdsub hcl' hk' hss (by rintro ⟨_, _, hx, _⟩; cases hx)
+        (by rintro g ⟨_, _, hx, hmem⟩; cases hx; exact hssn hmem) (hreach _ hx)
+    have hsub := srcOrder_sublist_tt (e.shape.cpuOut c k itt) _ _ _ wfP.dirtyNodup hnoss hnot
+    exact ⟨b1, bP, bF, em, hw.mono (fun _ ⟨s0, a1, ⟨k0, i0, a2, a3⟩, a4⟩ => ⟨s0, a1, ⟨k0, i0, a2, hsets_all _ a3⟩, a4⟩),
+      hm, hph, hp, hinv, wfP, hnot,
+      fun hx _ => absurd hx hnoss, List.Sublist.cons _ hsub, fun _ => ⟨hnoss, hsub⟩⟩
+  · obtain ⟨b1, bP, bF, em, D1, D2, A, hw, hm, hph, hp, hinv, wfP, hmx, hd, hd1, hd2, hdP, _, hord, hreach⟩ :=
+      Ovni.Emu.Inv.two_phase_event hc hs hi s1 s2
+    have hdsub : ∀ s ∈ b1.dirty, e.shape.okP
+        (fun s => Ovni.Emu.rawOf ti [iss] s ∨ Ovni.Emu.rawOf ti (Ovni.Emu.taskIdx tm).sets s) s := by
+      intro s hsd
+      rw [hd] at hsd
+      rcases List.mem_append.mp hsd with h | h
+      · obtain ⟨s0, a1, a2, a3⟩ := hd1 s h; exact ⟨s0, a1, Or.inl a2, a3⟩
+      · obtain ⟨s0, a1, a2, a3⟩ := hd2 s h; exact ⟨s0, a1, Or.inr a2, a3⟩
+    have hnot : e.shape.cpuOut c k iidle ∉ bP.dirty := fun hx =>
+      hb.cpuOut_not_reached hmx hdsub hcl' hk' h3
+        (by rintro (⟨_, _, hx, _⟩ | ⟨_, _, hx, _⟩) <;> cases hx)
+        (by
+          rintro g (⟨_, _, hx, hmem⟩ | ⟨_, _, hx, hmem⟩)
+          · cases hx; simp only [List.mem_singleton] at hmem; exact hidle (hmem ▸ hss_all)
+          · cases hx; exact hidle (hsets_all _ hmem))
+        (hreach _ hx)
+    have hpos : e.shape.cpuOut c k iss ∈ bP.dirty → e.shape.cpuOut c k itt ∈ bP.dirty →
+        bP.dirty.idxOf (e.shape.cpuOut c k iss) < bP.dirty.idxOf (e.shape.cpuOut c k itt) := by
+      intro hx hy
+      exact hb.cpu_order_two_phase hmx hd1 hd2 (by rw [hdP, hd]) (hd ▸ hord) hcl' hk' hss htt hne
+        (by rintro ⟨_, _, hx, _⟩; cases hx) (by rintro ⟨_, _, hx, _⟩; cases hx)
+        (by rintro g ⟨_, _, hx, hmem⟩; cases hx; exact hssn hmem)
+        (by rintro g ⟨_, _, hx, hmem⟩; cases hx; simp only [List.mem_singleton] at hmem; exact hne hmem.symm)
+        hx hy
+    refine ⟨b1, bP, bF, em, hw.mono ?_, hm, hph, hp, hinv, wfP, hnot, hpos,
+      srcOrder_sublist_of_positions _ _ _ hts _ wfP.dirtyNodup hnot hpos, fun h => absurd h hpr⟩
+    rintro _ ⟨s0, a1, (⟨k0, i0, a2, a3⟩ | ⟨k0, i0, a2, a3⟩), a4⟩
+    · simp only [List.mem_singleton] at a3
+      exact ⟨s0, a1, ⟨k0, i0, a2, a3 ▸ hss_all⟩, a4⟩
+    · exact ⟨s0, a1, ⟨k0, i0, a2, hsets_all _ a3⟩, a4⟩
+
+theorem sublist_pair_full {l : List Src} (h : l.Sublist [Src.ss, Src.tt]) (h1 : Src.ss ∈ l) (h2 : Src.tt ∈ l) :
+    l = [Src.ss, Src.tt] := by
+  have hlen : [Src.ss, Src.tt].length ≤ l.length := by
+    cases l with
+    | nil => cases h1
+    | cons a l =>
+      cases l with
+      | nil =>
+        simp only [List.mem_singleton] at h1 h2
+        rw [← h1] at h2; cases h2
+      | cons b l => simp
+  exact h.eq_of_length_le hlen
+
+theorem sublist_single_full {l : List Src} (h : l.Sublist [Src.tt]) (h2 : Src.tt ∈ l) : l = [Src.tt] := by
+  have hlen : [Src.tt].length ≤ l.length := by
+    cases l with
+    | nil => cases h2
+    | cons a l => simp
+  exact h.eq_of_length_le hlen
+
+/-- **The exact dirty list after a task event, for the CPU the thread runs on.**
+    In a coupled state (`Ovni.Emu.Coupled`, an invariant of every accepted
+    history: `C06.coupled_history`), for the task-state event of thread `ti`
+    accepted by the task hook and the CPU `c` whose `th_running` shows `ti`: after
+    the dirty phase the CPU's breakdown inputs appear on the dirty list EXACTLY as
+    `[ss, tt]` for `VTx` / `VTe` (`6Tx` / `6Te`) and as `[tt]` for `VTp` / `VTr`
+    — `tt` = the task-type channel, `ss` = the subsystem channel, and no `idle`.
+    Order: `update_task_ss_channel` before `update_task_channels`
+    (`task_event_dirty_positions`); presence: `chan_push` / `chan_pop` always dirty
+    the channel and the task type has `CHAN_ALLOW_DUP`, the CPU mux has the running
+    thread's input callback enabled (`MuxSync` from `Inv`), and `cb_input` dirties
+    the ALLOW_DUP output (`Inv.cpuOut_present`). -/
+theorem task_event_dirty_exact {tm : Ovni.Task.Model} {P : Ovni.Task.ProcInfo} {ε : Ovni.Task.Emu}
+    {e e' : Ovni.Emu.Emu} {b0 b : Ovni.Emu.Bay} {ti a k t bp : Nat} {tv : Ovni.Task.TaskEv} {p : List Nat}
+    (hc : e.shape.connect = .ok b0) (hs : Ovni.Emu.Shaped e) (hi : Ovni.Emu.Inv b0 e b)
+    (hk : e.specs[k]? = some (Ovni.Emu.specOf tm)) (hcp : Ovni.Emu.Coupled tm k e ε)
+    (h : Ovni.Emu.taskHook tm P ε (.task ti tv t bp) e ti (Ovni.Emu.specOf tm).char a p = .ok e')
+    {c iidle : Nat} {x : Ovni.Emu.Chan} (hcl : c < e.cpus.length) (hti : ti < e.threads.length)
+    (hrun : e.src (.run c) = some x) (hcur : x.cur = .int (ti : Int))
+    (h3 : iidle < (Ovni.Emu.specOf tm).nch) (hidle : iidle ∉ (Ovni.Emu.taskIdx tm).all) :
+    let iss := (Ovni.Emu.taskIdx tm).ss
+    let itt := (Ovni.Emu.taskIdx tm).typ
+    ∃ b1 bP bF em, Ovni.Emu.Bay.Writes (· < e.shape.L) b b1 ∧ Ovni.Emu.Mirrors e' b1 ∧
+      b1.dirtyPhase b1.chans.length 0 = .ok bP ∧ b1.propagate = .ok (bF, em) ∧ Ovni.Emu.Inv b0 e'.flushAll bF ∧
+      srcOrder (e.shape.cpuOut c k itt) (e.shape.cpuOut c k iss) (e.shape.cpuOut c k iidle) bP.dirty =
+        (if tv = .x ∨ tv = .e then [Src.ss, Src.tt] else [Src.tt]) := by
+  intro iss itt
+  have hgrp : iss < (Ovni.Emu.specOf tm).nch ∧ itt < (Ovni.Emu.specOf tm).nch ∧
+      itt ∈ (Ovni.Emu.taskIdx tm).sets ∧ iss ∉ (Ovni.Emu.taskIdx tm).sets ∧
+      itt ∈ (Ovni.Emu.taskIdx tm).all ∧ iss ∈ (Ovni.Emu.taskIdx tm).all := by
+    cases tm <;> decide
+  obtain ⟨g1, g2, g3, g4, g5, g6⟩ := hgrp
+  obtain ⟨b1, bP, bF, em, hw, hm, hph, hp, hinv, wfP, hnot, _, hsub, hpr⟩ :=
+    task_event_dirty_positions (c := c) (k := k) (itt := itt) (iidle := iidle) hc hs hi h hcl hk g1 g2 h3 g3 g4 hidle
+  have hsh : e'.shape = e.shape := ((Ovni.Emu.taskHook_simP h) hs).2.1
+  have hraw : ∀ s, Ovni.Emu.rawOf ti (Ovni.Emu.taskIdx tm).all s → s.isRaw := fun s hs => Ovni.Emu.rawOf_isRaw hs
+  obtain ⟨⟨ch1, d1, d2⟩, hssd⟩ := Ovni.Emu.taskHook_task_dirty hs hk hcp hti h
+  have hpt : e.shape.cpuOut c k itt ∈ bP.dirty :=
+    Ovni.Emu.Inv.cpuOut_present hc hi hsh hw hm hph hraw hcl hk g2 hti hrun hcur d1 d2
+  have hb := Ovni.Emu.Shape.connect_built hc
+  have hk' : e.shape.specs[k]? = some (Ovni.Emu.specOf tm) := hk
+  have hcl' : c < e.shape.nC := hcl
+  have hj : ∀ i, i < (Ovni.Emu.specOf tm).nch → Ovni.Emu.Job.cpu c k i ∈ e.shape.jobs :=
+    fun i hi => (e.shape.mem_jobs_cpu c k i).mpr ⟨hcl', _, hk', hi⟩
+  have hne : iss ≠ itt := fun hq => g4 (hq ▸ g3)
+  have hts : e.shape.cpuOut c k itt ≠ e.shape.cpuOut c k iss := by
+    rcases Nat.lt_or_gt_of_ne hne with h | h
+    · exact Nat.ne_of_gt (e.shape.cpuOut_lt (hj iss g1) (hj itt g2) h)
+    · exact Nat.ne_of_lt (e.shape.cpuOut_lt (hj itt g2) (hj iss g1) h)
+  have hti' : e.shape.cpuOut c k itt ≠ e.shape.cpuOut c k iidle := fun hq => hnot (hq ▸ hpt)
+  have hsi' : e.shape.cpuOut c k iss ≠ e.shape.cpuOut c k iidle := by
+    intro hq
+    have h1 : iss ≠ iidle := fun hq2 => hidle (hq2 ▸ g6)
+    rcases Nat.lt_or_gt_of_ne h1 with h | h
+    · exact absurd hq (Nat.ne_of_lt (e.shape.cpuOut_lt (hj iss g1) (hj iidle h3) h))
+    · exact absurd hq (Nat.ne_of_gt (e.shape.cpuOut_lt (hj iidle h3) (hj iss g1) h))
+  have hmem := srcOrder_contains (e.shape.cpuOut c k itt) (e.shape.cpuOut c k iss) (e.shape.cpuOut c k iidle)
+    hts hti' hsi' bP.dirty
+  refine ⟨b1, bP, bF, em, hw.mono (fun _ h => Ovni.Emu.Shape.okP_lt h), hm, hph, hp, hinv, ?_⟩
+  by_cases hxe : tv = .x ∨ tv = .e
+  · rw [if_pos hxe]
+    obtain ⟨ch2, d3, d4⟩ := hssd hxe
+    have hps : e.shape.cpuOut c k iss ∈ bP.dirty :=
+      Ovni.Emu.Inv.cpuOut_present hc hi hsh hw hm hph hraw hcl hk g1 hti hrun hcur d3 d4
+    exact sublist_pair_full hsub (hmem.2.mpr hps) (hmem.1.mpr hpt)
+  · rw [if_neg hxe]
+    have hne2 : ∀ th t2 bp2, Ovni.Task.Ev.task ti tv t bp ≠ .task th .x t2 bp2 ∧
+        Ovni.Task.Ev.task ti tv t bp ≠ .task th .e t2 bp2 := by
+      intro th t2 bp2
+      constructor
+      · intro hq; injection hq with _ hq _ _; exact hxe (Or.inl hq)
+      · intro hq; injection hq with _ hq _ _; exact hxe (Or.inr hq)
+    exact sublist_single_full (hpr hne2).2 (hmem.1.mpr hpt)
+
 -- OPEN (what is left of `dirty_level_ordered` for the whole emulator).
 -- Proved now: for every thread-state / affinity event the three CPU channels enter the
 -- dirty list in the order `task_type`, `subsystem`, `idle`, all of them before any is
@@ -524,10 +904,31 @@ theorem dirty_level_ordered_emu (k : Consts) (c : Cpu) (sets : List (Src × Valu
 -- order (`ss` before `tt`) does not differ from what `orderOk` demands: `orderOk` does not
 -- constrain `ss` against `tt` (`example` below: both `[ss, tt]` and `[tt, ss]` pass).
 -- `dirty_level_ordered_raw` covers every other step that leaves `th_running` and the idle
--- channels alone.  Still open: the table events that DO write the idle channel (nOS-V
--- `VPp/VPr/VPa`: a single raw channel, dirty list `[idle]`, trivially `orderOk` but not
--- derived here because `SimP.tableEvent` does not name the written channel); the
--- positions of `ss` / `tt` on the list after a task event (not needed by `orderOk`).
+-- channels alone.
+-- Proved since: (a) the table events, those that write the idle channel included
+-- (`dirty_level_ordered_table`, from `SimP.tableEventP`: a table event writes exactly the
+-- channel its row names, `tableChans`; `idle_rows`: the rows on `CH_IDLE` are nOS-V
+-- `VPa VPp VPr` and Nanos6 `6Pa 6Pp 6Pr`).  What `orderOk` requires of `idle` relative to
+-- `ss` / `tt` only constrains events that put BOTH an `idle` and an `ss` / `tt` entry of one
+-- CPU on the dirty list; the only such events are the thread-state / affinity events
+-- (`th_running` changes: all three tracks, in `mux_init` order `tt, ss, idle` —
+-- `dirty_level_ordered_sys`); a table event writes ONE channel, so either the `ss` / `tt`
+-- tracks or the `idle` track stay off the list, and a task event never writes `idle`.
+-- Hence no hazard in the registration order: `orderOk` holds for every event class of the
+-- reference emulator.  (b) The positions after a task event
+-- (`task_event_dirty_positions`, `Bay.dirtyPhase_ordered`,
+-- `Shape.Built.cpu_order_two_phase`): no `idle`, `ss` before `tt`, i.e. the CPU's breakdown
+-- sees a sublist of `[ss, tt]` (`[tt]` for pause / resume); and (c) the EXACT list for the
+-- CPU the thread runs on, in a coupled state (`task_event_dirty_exact`: `[ss, tt]` for
+-- `VTx` / `VTe`, `[tt]` for `VTp` / `VTr`; presence from `Bay.dirtyPhase_inputOnly`,
+-- `Inv.cpuOut_present`, `taskHook_task_dirty`; `Coupled` is an invariant of every accepted
+-- history, `C06.coupled_history`).
+-- Still open: the positions of the OTHER tracks on the list (thread tracks, the tracks of
+-- body id / task id / app id / rank): `Bay.dirtyPhase_ordered` orders them by trigger, the
+-- order of two outputs with the SAME trigger (thread track vs CPU track of one channel) is
+-- the order in which their `cb_input` callbacks were enabled — history dependent, not
+-- characterised; the breakdown does not read them.  The ovni mark / flush events are
+-- covered by `dirty_level_ordered_raw` as steps but are not instantiated here.
 -- Also not modelled: the breakdown muxes themselves (chained muxes on the CPU track
 -- outputs) are not part of `bayOf`; `step` is their per-CPU model.  Those parts stay
 -- exercised against the real `connect_cpu` by the harness and against `ovniemu -b` by the
@@ -732,5 +1133,122 @@ def exDirtyT : List Nat :=
 
 example : srcOrder (exEmu.shape.cpuOut 0 1 2) (exEmu.shape.cpuOut 0 1 4) (exEmu.shape.cpuOut 0 1 6) exDirtyT
     = [.ss, .tt] ∧ orderOk (dedup [Src.ss, Src.tt]) = true ∧ orderOk (dedup [Src.tt, Src.ss]) = true := by decide
+
+/-! ### The idle events and the positions after a task event: non-vacuity
+
+`exEmuR`: the state after `OHx` of thread 0 on CPU 0 (`bay_propagate` done).  The
+event is `VPr` (nOS-V `CH_IDLE := ST_RESTING`) of thread 0. -/
+
+def exEmuR : Ovni.Emu.Emu :=
+  (match Ovni.Emu.preThread exEmu 0 120 [0, 0, 0, 0] with
+   | .ok e => e
+   | .error _ => exEmu).flushAll
+
+theorem exVPr_accepted :
+    (match Ovni.Emu.tableEvent exEmuR 0 Ovni.Emu.specNosv 80 114 with | .ok _ => true | .error _ => false) = true := by
+  decide
+
+/-- All hypotheses of `dirty_level_ordered_table` hold in a state where the CPU
+    tracks are live (`Inv` after `OHx` from `Inv.step`), event `VPr`: the `ss` /
+    `tt` tracks of CPU 0 are not on the dirty list and `orderOk` holds. -/
+example : ∃ (bR : Ovni.Emu.Bay) (e' : Ovni.Emu.Emu) (bP : Ovni.Emu.Bay), Ovni.Emu.Inv exBay0 exEmuR bR ∧
+    Ovni.Emu.tableEvent exEmuR 0 Ovni.Emu.specNosv 80 114 = .ok e' ∧
+    exEmuR.shape.cpuOut 0 1 2 ∉ bP.dirty ∧ exEmuR.shape.cpuOut 0 1 4 ∉ bP.dirty ∧
+    orderOk (dedup (srcOrder (exEmuR.shape.cpuOut 0 1 2) (exEmuR.shape.cpuOut 0 1 4) (exEmuR.shape.cpuOut 0 1 6)
+      bP.dirty)) = true := by
+  obtain ⟨hs, _, bI, _, _, _, hi⟩ := Ovni.Emu.Inv.init _ _ _ _ _ exBay0_connect (by decide) (by decide)
+    (by rw [List.append_nil]; exact Ovni.Emu.initSingle_allSpecs _)
+  cases h : Ovni.Emu.preThread exEmu 0 120 [0, 0, 0, 0] with
+  | error x => have := exOHx_accepted; rw [h] at this; cases this
+  | ok e1 =>
+    obtain ⟨hs1, hsh1, _, bR, _, _, _, _, _, hiR⟩ := Ovni.Emu.Inv.step exBay0_connect hs hi (Ovni.Emu.SimP.preThread h)
+    have hR : exEmuR = e1.flushAll := by unfold exEmuR; rw [h]
+    rw [← hR] at hs1 hsh1 hiR
+    have hcR : exEmuR.shape.connect = .ok exBay0 := by rw [hsh1]; exact exBay0_connect
+    cases h2 : Ovni.Emu.tableEvent exEmuR 0 Ovni.Emu.specNosv 80 114 with
+    | error x => have := exVPr_accepted; rw [h2] at this; cases this
+    | ok e' =>
+      obtain ⟨_, bP, _, _, _, _, _, _, _, hin, _, hord⟩ :=
+        dirty_level_ordered_table (c := 0) (k := 1) (itt := 2) (iss := 4) (iidle := 6) (m := Ovni.Emu.specNosv)
+          hcR hs1 hiR h2 (by decide) (by rfl) (by decide) (by decide) (by decide) (by decide)
+      obtain ⟨h3, h4⟩ := hin (by decide)
+      exact ⟨bR, e', bP, hiR, rfl, h3, h4, hord⟩
+
+/-- The same computed: `emu_connect`, `OHx` (three writes, `bay_propagate`), then
+    the write of `VPr` — `chan_set(CH_IDLE, ST_RESTING)` — and the dirty phase: the
+    CPU's breakdown sees `[idle]` only. -/
+def exDirtyP : List Nat :=
+  let σ := exEmu.shape
+  let b1 := (σ.addrs.filter σ.hasInit).foldl
+    (fun b s => unwrapB b (b.write (σ.idx s) (σ.initOp s))) exBay0
+  let bI := (unwrapB (b1, []) b1.propagate).1
+  let w1 := unwrapB bI (bI.chanSet (σ.idx (.st 0)) (.int 1))
+  let w2 := unwrapB w1 (w1.chanSet (σ.idx (.run 0)) (.int 0))
+  let w3 := unwrapB w2 (w2.chanSet (σ.idx (.act 0)) (.int 0))
+  let bX := (unwrapB (w3, []) w3.propagate).1
+  let t1 := unwrapB bX (bX.chanSet (σ.idx (.raw 0 1 6)) (.int 101))
+  (unwrapB t1 (t1.dirtyPhase t1.chans.length 0)).dirty
+
+example : srcOrder (exEmu.shape.cpuOut 0 1 2) (exEmu.shape.cpuOut 0 1 4) (exEmu.shape.cpuOut 0 1 6) exDirtyP
+    = [.idle] ∧ exDirtyP.length = 3 ∧ orderOk (dedup [Src.idle]) = true := by decide
+
+/-- All hypotheses of `task_event_dirty_positions` hold (state from `Inv.init`,
+    event `VTx`): the CPU's breakdown sees a sublist of `[ss, tt]` (`exDirtyT`
+    above: exactly `[ss, tt]` when the thread runs on the CPU). -/
+example : ∃ (bI : Ovni.Emu.Bay) (e' : Ovni.Emu.Emu) (bP : Ovni.Emu.Bay), Ovni.Emu.Inv exBay0 exEmu bI ∧
+    Ovni.Emu.taskHook .nosv ⟨1, -1⟩ exTaskE (.task 0 .x 1 0) exEmu 0 86 84 [] = .ok e' ∧
+    (srcOrder (exEmu.shape.cpuOut 0 1 2) (exEmu.shape.cpuOut 0 1 4) (exEmu.shape.cpuOut 0 1 6) bP.dirty).Sublist
+      [Src.ss, Src.tt] := by
+  obtain ⟨hs, _, bI, _, _, _, hi⟩ := Ovni.Emu.Inv.init _ _ _ _ _ exBay0_connect (by decide) (by decide)
+    (by rw [List.append_nil]; exact Ovni.Emu.initSingle_allSpecs _)
+  cases h : Ovni.Emu.taskHook .nosv ⟨1, -1⟩ exTaskE (.task 0 .x 1 0) exEmu 0 86 84 [] with
+  | error x => have := exVTx_accepted; rw [h] at this; cases this
+  | ok e' =>
+    obtain ⟨_, bP, _, _, _, _, _, _, _, _, _, _, hsub, _⟩ :=
+      task_event_dirty_positions (c := 0) (k := 1) (itt := 2) (iidle := 6) (m := Ovni.Emu.specNosv)
+        exBay0_connect hs hi h (by decide) (by rfl) (by decide) (by decide) (by decide) (by decide) (by decide)
+        idle_not_task_channel.1
+    exact ⟨bI, e', bP, hi, rfl, hsub⟩
+
+/-! ### The exact list: non-vacuity
+
+`exEmuR` (thread 0 runs on CPU 0), coupled with the task layer state `exTaskE`
+(type 1 and task 1 created, every task channel null), event `VTx` of task 1. -/
+
+theorem exVTxR_accepted :
+    (match Ovni.Emu.taskHook .nosv ⟨1, -1⟩ exTaskE (.task 0 .x 1 0) exEmuR 0 86 84 [] with
+      | .ok _ => true | .error _ => false) = true := by
+  decide
+
+/-- All hypotheses of `task_event_dirty_exact` hold: CPU 0's breakdown inputs are
+    on the dirty list exactly as `[ss, tt]`. -/
+example : ∃ (bR : Ovni.Emu.Bay) (e' : Ovni.Emu.Emu) (bP : Ovni.Emu.Bay), Ovni.Emu.Inv exBay0 exEmuR bR ∧
+    Ovni.Emu.Coupled .nosv 1 exEmuR exTaskE ∧
+    Ovni.Emu.taskHook .nosv ⟨1, -1⟩ exTaskE (.task 0 .x 1 0) exEmuR 0 86 84 [] = .ok e' ∧
+    srcOrder (exEmuR.shape.cpuOut 0 1 2) (exEmuR.shape.cpuOut 0 1 4) (exEmuR.shape.cpuOut 0 1 6) bP.dirty =
+      [Src.ss, Src.tt] := by
+  obtain ⟨hs, _, bI, _, _, _, hi⟩ := Ovni.Emu.Inv.init _ _ _ _ _ exBay0_connect (by decide) (by decide)
+    (by rw [List.append_nil]; exact Ovni.Emu.initSingle_allSpecs _)
+  have hcp0 : Ovni.Emu.Coupled .nosv 1 exEmu Ovni.Task.Emu.init :=
+    Ovni.Emu.coupled_init .nosv _ _ _ _ _ (by rfl)
+  cases h : Ovni.Emu.preThread exEmu 0 120 [0, 0, 0, 0] with
+  | error x => have := exOHx_accepted; rw [h] at this; cases this
+  | ok e1 =>
+    have hsim := Ovni.Emu.SimP.preThread h
+    obtain ⟨hs1, hsh1, _, bR, _, _, _, _, _, hiR⟩ := Ovni.Emu.Inv.step exBay0_connect hs hi hsim
+    have hR : exEmuR = e1.flushAll := by unfold exEmuR; rw [h]
+    have hcpR : Ovni.Emu.Coupled .nosv 1 e1.flushAll exTaskE :=
+      hcp0.keep (congrArg Ovni.Emu.Shape.nT (hsim hs).2.1) (Ovni.Emu.preThread_maxStack h)
+        (Ovni.Emu.RawKeep.of_sys hsim hs hi.mirrors (fun _ _ hx => hx)) (by rfl) (by rfl)
+    rw [← hR] at hs1 hsh1 hiR hcpR
+    have hcR : exEmuR.shape.connect = .ok exBay0 := by rw [hsh1]; exact exBay0_connect
+    cases h2 : Ovni.Emu.taskHook .nosv ⟨1, -1⟩ exTaskE (.task 0 .x 1 0) exEmuR 0 86 84 [] with
+    | error x => have := exVTxR_accepted; rw [h2] at this; cases this
+    | ok e' =>
+      obtain ⟨_, bP, _, _, _, _, _, _, _, hex⟩ :=
+        task_event_dirty_exact (tm := .nosv) (c := 0) (k := 1) (iidle := 6) (x := (exEmuR.src (.run 0)).getD {})
+          hcR hs1 hiR (by rfl) hcpR h2 (by decide) (by decide) (by rfl) (by decide) (by decide)
+          idle_not_task_channel.1
+      exact ⟨bR, e', bP, hiR, hcpR, rfl, hex⟩
 
 end Ovni.Props.C20
